@@ -502,6 +502,7 @@ Qed.
 Definition nr_ev (e : ev) : bool := negb (is_rename e).
 
 Record inv1 (s0 : st) (r : run) : Prop := {
+  i_shr : r_shrinking r = true;
   i_wf : wf (r_live r);
   i_nr : forallb nr_cmd (r_log r) = true;
   i_live : forall k i, lookup k i (r_live r) =
@@ -523,15 +524,15 @@ Qed.
 
 Lemma inv1_step s0 r e : nr_ev e = true -> inv1 s0 r -> inv1 s0 (do_ev mk mi r e).
 Proof.
-  intros Hnr [Hwf Hlog Hlive Hsh Hcs Hsound Hcover]. destruct e as [c|]; cbn [do_ev].
+  intros Hnr [Hshr Hwf Hlog Hlive Hsh Hcs Hsound Hcover]. destruct e as [c| |]; cbn [do_ev].
   - (* writer *)
     assert (Hc : nr_cmd c = true) by (destruct c; cbn in *; congruence).
     pose proof (exec_wf (r_live r) c Hwf) as Hwf'.
     pose proof (exec_lookup (r_live r) c) as Hel.
     pose proof (exec_not_logged (r_live r) c) as Hnl.
-    destruct (exec (r_live r) c) as [s' o]. cbn [fst snd] in *.
+    destruct (exec (r_live r) c) as [s' o]. cbn [fst snd] in *. rewrite Hshr. cbn [andb].
     destruct (logged o) eqn:Elog.
-    + constructor; cbn [r_live r_sh r_log]; auto.
+    + constructor; cbn [r_live r_sh r_log r_shrinking]; auto.
       * rewrite forallb_app, Hlog. cbn. rewrite Hc. reflexivity.
       * intros k i. rewrite last_touch_app. cbn [last_touch]. rewrite Hel by assumption.
         destruct (touch c k i); [reflexivity | apply Hlive].
@@ -539,10 +540,10 @@ Proof.
         destruct (touch c k i); [discriminate|]. apply Hsound; exact Hlt.
       * intros k i v Hlt. rewrite last_touch_app in Hlt. cbn [last_touch] in Hlt.
         destruct (touch c k i); [discriminate|]. apply Hcover; exact Hlt.
-    + rewrite (Hnl eq_refl) in *. constructor; cbn [r_live r_sh r_log]; auto.
+    + rewrite (Hnl eq_refl) in *. constructor; cbn [r_live r_sh r_log r_shrinking]; auto.
   - (* a locked section of the rewrite *)
     destruct (step_out (r_live r) (r_sh r) Hwf Hsh) as [new [Hout Hnew]].
-    constructor; cbn [r_live r_sh r_log]; auto.
+    constructor; cbn [r_live r_sh r_log r_shrinking]; auto.
     + apply step_shape; exact Hsh.
     + rewrite Hout. apply Forall_app. split; [exact Hcs|]. rewrite Forall_forall. intros c Hc.
       destruct (Hnew c Hc) as [k [i [v [-> _]]]]. exact I.
@@ -552,7 +553,12 @@ Proof.
         rewrite Hlive, Hlt in Hl. exact Hl.
     + intros k i v Hlt Hl. apply step_cover; auto.
       rewrite Hlive, Hlt. exact Hl.
+  - (* another AOFSHRINK request while the rewrite runs: refused *)
+    unfold request. rewrite Hshr. constructor; assumption.
 Qed.
+
+Lemma request_noop r : r_shrinking r = true -> request r = r.
+Proof. intros H. unfold request. rewrite H. reflexivity. Qed.
 
 Lemma inv1_run s0 sched : forall r, forallb nr_ev sched = true -> inv1 s0 r -> inv1 s0 (run_sched mk mi sched r).
 Proof.
@@ -565,7 +571,7 @@ Proof. unfold sh_done, pending. destruct (sh_pos sh); try discriminate. tauto. Q
 
 Lemma inv1_done s0 r : inv1 s0 r -> sh_done (r_sh r) = true -> same_data (replay (newfile r) []) (r_live r).
 Proof.
-  intros [Hwf Hlog Hlive Hsh Hcs Hsound Hcover] Hdone k i.
+  intros [_ Hwf Hlog Hlive Hsh Hcs Hsound Hcover] Hdone k i.
   unfold newfile. rewrite replay_lookup; [|exact wf_nil|rewrite forallb_app, Hlog, (cset_nr _ Hcs); reflexivity].
   rewrite last_touch_app, Hlive, lookup_nil.
   destruct (last_touch (r_log r) k i) as [x|] eqn:Elt; [reflexivity|].
@@ -851,9 +857,10 @@ Definition inv5 (r : run) : Prop := wf (r_live r) /\ front (r_sh r).
 Lemma inv5_run sched : forall r, inv5 r -> inv5 (run_sched mk mi sched r).
 Proof.
   unfold run_sched. induction sched as [|e sched IH]; intros r Hinv; cbn [fold_left]; [exact Hinv|].
-  apply IH. destruct Hinv as [Hwf Hf]. destruct e as [c|]; cbn [do_ev].
+  apply IH. destruct Hinv as [Hwf Hf]. destruct e as [c| |]; cbn [do_ev].
   - pose proof (exec_wf (r_live r) c Hwf) as Hwf'. destruct (exec (r_live r) c) as [s' o]. split; assumption.
   - split; [exact Hwf | apply step_front; assumption].
+  - unfold request. destruct (r_shrinking r); [split; assumption|]. split; [exact Hwf | exact front_init].
 Qed.
 
 (* holds for all schedules, RENAME included *)
@@ -872,7 +879,7 @@ Proof.
   intros Hwf r Hdone. split; [|apply batches_never_repeat; exact Hwf].
   assert (Hinv : inv1 s r) by (apply inv1_run; [apply no_rename_steps | apply inv1_init; exact Hwf]).
   assert (Hlog : r_log r = []) by (unfold r; rewrite (proj2 (run_steps_live mk mi n _)); reflexivity).
-  destruct Hinv as [_ _ _ _ _ Hsound Hcover]. rewrite Hlog in *. intros k i v. split.
+  destruct Hinv as [_ _ _ _ _ _ Hsound Hcover]. rewrite Hlog in *. intros k i v. split.
   - apply Hsound. reflexivity.
   - intros Hl. destruct (Hcover k i v eq_refl Hl) as [Hin|Hp]; [exact Hin|].
     exfalso. eapply pending_done; eauto.
@@ -1002,7 +1009,7 @@ Proof.
 Qed.
 
 Lemma terminates_from : forall m sh log, mu sh <= m -> shape2 sh ->
-  exists n, sh_done (r_sh (run_sched mk mi (repeat Step n) (mkRun s sh log))) = true.
+  exists n, sh_done (r_sh (run_sched mk mi (repeat Step n) (mkRun s sh log true))) = true.
 Proof.
   induction m as [|m IH]; intros sh log Hm Hs; destruct (sh_done sh) eqn:Ed;
     try (exists 0; exact Ed); pose proof (mu_dec sh Hs Ed) as Hdec; [lia|].
@@ -1129,3 +1136,66 @@ Proof.
     apply snap_in; [exact Hwf|]. apply Hin; exact Hx.
   - destruct (in_snap _ _ Hx) as [k [col [i [v [_ [_ ->]]]]]]. apply Hin. apply snap_in; assumption.
 Qed.
+
+(* ------------------------------------------------------------------ requests while a rewrite runs *)
+
+Theorem request_is_noop (mk mi : nat) r : r_shrinking r = true -> do_ev mk mi r Req = r.
+Proof. intros H. cbn [do_ev]. apply request_noop; exact H. Qed.
+
+Lemma shrinking_ev (mk mi : nat) r e : r_shrinking r = true -> r_shrinking (do_ev mk mi r e) = true.
+Proof.
+  intros H. destruct e as [c| |]; cbn [do_ev].
+  - destruct (exec (r_live r) c) as [s' o]. exact H.
+  - exact H.
+  - rewrite request_noop; exact H.
+Qed.
+
+Lemma shrinking_run (mk mi : nat) sched : forall r, r_shrinking r = true -> r_shrinking (run_sched mk mi sched r) = true.
+Proof.
+  unfold run_sched. induction sched as [|e sched IH]; intros r H; cbn [fold_left]; [exact H|].
+  apply IH, shrinking_ev; exact H.
+Qed.
+
+(* the flag stays set whatever requests arrive; after the epilogue the next request starts afresh *)
+Theorem request_lifecycle s0 (mk mi : nat) sched :
+  let r := run_sched mk mi sched (run_init s0) in
+  r_shrinking r = true /\ request (end_rewrite r) = run_init (r_live r).
+Proof. intros r. split; [apply shrinking_run; reflexivity | reflexivity]. Qed.
+
+(* ex_sched with AOFSHRINK requests: before the first section's successor, right after a writer, at the end *)
+Definition ex_sched_req : list ev :=
+  [Step; Req; W (CSet (b1 97) (ex_id 7) (b1 121)); Req; Step; Step;
+   W (CSet (b1 98) (ex_id 0) (b1 122)); W (CDel (b1 100) (ex_id 5)); W (CDel (b1 100) (ex_id 99));
+   Step; Req; Req; Step; W (CSet (b1 100) (ex_id 35) (b1 121)); W (CDrop (b1 102)); W (CDrop (b1 120));
+   W (CSet [96%N] (ex_id 1) (b1 121)); W (CSet (b1 122) (ex_id 1) (b1 121)); Step; W (CDel (b1 106) (ex_id 0));
+   W (CDel (b1 106) (ex_id 1)); Req] ++ repeat Step 40 ++ [Req].
+
+(* ------------------------------------------------------------------ leftovers of an interrupted rewrite *)
+
+Theorem rewrite_ignores_leftovers d fi : d_live d = Some (f_live fi) ->
+  rewrite_dir d fi = mkDir (Some (f_snap fi ++ f_slog fi)) None None.
+Proof. destruct d as [l b sh]. cbn [d_live]. intros ->. reflexivity. Qed.
+
+Theorem crash_points_leftovers d fi c : d_live d = Some (f_live fi) -> crash_hyp fi ->
+  let d' := recover_dir (crash_from d fi c) in
+  same_data d' (replay (f_live fi) []) \/ same_data d' (replay (f_live fi ++ f_pend fi) []).
+Proof.
+  destruct d as [l b sh]. cbn [d_live]. intros -> H.
+  destruct c; unfold crash_from, create_shrink, write_snap, recover_dir; cbn;
+    first [ left; apply same_data_refl | right; apply same_data_refl | right; exact H ].
+Qed.
+
+Theorem startup_keeps_data_gen d : recover_dir (startup_dir d) = recover_dir d.
+Proof. destruct d as [[l|] [b|] sh]; reflexivity. Qed.
+
+Theorem startup_keeps_data fi c : recover_dir (startup_dir (crash_at fi c)) = recover_dir (crash_at fi c).
+Proof. apply startup_keeps_data_gen. Qed.
+
+Theorem two_rewrites fi1 c fi2 : d_live (startup_dir (crash_at fi1 c)) = Some (f_live fi2) ->
+  recover_dir (rewrite_dir (startup_dir (crash_at fi1 c)) fi2) = replay (f_snap fi2 ++ f_slog fi2) [].
+Proof. intros H. rewrite (rewrite_ignores_leftovers _ _ H). reflexivity. Qed.
+
+(* second rewrite after ex_final died at CP_after_sync: the live file is ex_final's flushed one, an
+   unflushed DEL, and a snapshot of ONE record (the leftover -shrink file has two) *)
+Definition ex_final2 : final_in :=
+  mkFinal (f_live ex_final ++ f_pend ex_final) [CDel (b1 98) (ex_id 1)] [CSet (b1 97) (ex_id 2) (b1 121)] [].
